@@ -239,6 +239,8 @@ impl Recorder {
             "sig": sig,
             "witness": witness,
             "seed": env().seed,
+            "tier": if env().thorough { "thorough" } else { "quick" },
+            "build": std::env::var("VERIF_BUILD").unwrap_or_else(|_| "b1".into()),
         });
         if self.violations.len() < 50 {
             let dir = std::env::var("VERIF_WITNESS").unwrap_or_else(|_| "/tmp".into());
